@@ -472,6 +472,16 @@ def install_wrapper_stubs(E, ctx, R, my, opts):
                     return a[1]
                 E.throw('KeyError', origin='no-marker')
             return VStub('dict.pop', pop)
+        if o is ctx.cache_obj and name == 'get':
+            def cache_get(E_, a, k):
+                """_cache.get(key[, default]): the stored result (which may itself be None, 0, '' ...) or the default"""
+                key_ok(a[0], node)
+                access('_cache.get(key)')
+                s = R.cur()
+                if E.branch(s.c_has):
+                    return VVal(s.c_val)
+                return a[1] if len(a) > 1 else NONE
+            return VStub('dict.get', cache_get)
         if o is ctx.cache_obj and name in ('pop', 'popitem', 'clear'):
             def evict(E_, a, k):
                 """the wrapper itself removing an entry of the store (the CALLER's mapping): whatever is stored under the
